@@ -708,10 +708,10 @@ pub fn run(lines: &[Value], opts: &SampleOpts) -> Summary {
             }
         }
         if opts.boundary {
-            boundary_checks(&mut cx, samplers[0].as_ref(), &mut rng, 6);
+            boundary_checks(&mut cx, samplers[0].as_ref(), &mut rng, 12);
         }
         // ---- the same structure with weights spread over many orders of magnitude (numerical range)
-        if (li as u64 + opts.seed) % 3 == 0 && line.e >= 2 && line.e <= 5 {
+        if (li as u64 + opts.seed) % 2 == 0 && line.e >= 2 && line.e <= 5 {
             const PAL: [f64; 12] = [1e-11, 1e-9, 1e-6, 1e-3, 0.3, 1.0 / 3.0, 0.7, 1.25, 2.5, 10.0, 1e3, 1e6];
             for _try in 0..6 {
                 let small = rng.gen_bool(0.6);
